@@ -214,6 +214,13 @@ fn panic_key(r: &Res, input: &str) -> String {
         // conversion in some FFI function or macro: one defect, many call sites
         return "panic:poly-nonfinite-conversion-unwrap".to_string();
     }
+    if r.kind.contains("library/core/src/ops/arith.rs") {
+        // an overflow inside a core operator impl: only generic code (num-rational / num-integer on `Ratio<i128>`)
+        // reaches those through the trait; numbat's own arithmetic on primitives reports numbat's source location.
+        // The rustc path and line are not stable: the key is the message.
+        let msg = r.detail.rsplit(":: ").next().unwrap_or("").trim();
+        return format!("{}core-ops-arith:{}", if r.kind.starts_with("render-") { "render-panic:" } else { "panic:" }, msg);
+    }
     if r.detail.contains("to be on the top of the stack") {
         let uses_last = input.split(|c: char| !(c.is_alphanumeric() || c == '_')).any(|w| w == "ans" || w == "_");
         let tag = if uses_last { "last-result" } else if input.contains("unit ") && input.contains('=') { "unit-definition" } else { "other" };
